@@ -16,6 +16,8 @@ LOOP_REVIEWED = {
 def run(check, ctx):
     repo = ctx.repo
     foreign_handles(check, repo)
+    handle_pairing(check, repo, ctx.cdb)
+    ffi_argument_lifetime(check, repo)
     buffer_request_flags(check, repo)
     # ---- raw pointers taken with .get() must not be held across a re-binding of the owner -------------
     nget = 0
@@ -81,6 +83,195 @@ def run(check, ctx):
     check.count("c_for_loops_scanned", nloops)
     if nloops < 300:
         raise AnalysisError("only %d for-loops scanned in src/" % nloops)
+
+
+def handle_pairing(check, repo, cdb):
+    """Every native handle is released by the routine that belongs to the one that created it.  For each
+    `SmartPointer(<h>.get(), <destructor>)` site the constructor is the native call that received `<h>.address_of()`;
+    both callees are resolved (library variable + symbol, through local names bound in if/else branches, class
+    attributes such as EcLib.free_context, module-level names) and every combination of definitions that can reach the
+    site together must come from one library and one C translation unit (AES_start_operation's state is malloc'ed,
+    AESNI_start_operation's is an aligned block with a different layout and deallocator).  A destructor chosen
+    independently of the branch that chose the constructor (e.g. once at import time) pairs with both branches."""
+    F = cdb.functions()
+
+    def tu_of(sym):
+        cands = F.get(sym)
+        return sorted(set(c.tu for c in cands)) if cands else None
+
+    def lib_names(mod, f):
+        from .. import ffi as _ffi
+        libs = dict((k, k) for k in _ffi.ffi_libs(mod))
+        scope = [f] if f is not None else []
+        for sc in scope + [mod.tree]:
+            for n in ast.walk(sc):
+                if isinstance(n, ast.Assign) and isinstance(n.value, ast.Call) and norm(n.value.func).split(".")[-1] in _ffi.LOADERS:
+                    for t in n.targets:
+                        if isinstance(t, ast.Name):
+                            libs[t.id] = t.id
+        # a library object imported from the module that loads it
+        for n in mod.tree.body:
+            if isinstance(n, ast.ImportFrom) and n.module:
+                src = repo.modules.get(n.module) or repo.modules.get("Crypto." + n.module)
+                if src is None and n.level:
+                    base = mod.name.rsplit(".", n.level)[0]
+                    src = repo.modules.get(base + "." + n.module)
+                if src is not None:
+                    sl = _ffi.ffi_libs(src)
+                    for a in n.names:
+                        if a.name in sl:
+                            libs[a.asname or a.name] = a.name
+        return libs
+
+    def ctx_of(node, f):
+        """Chain of (If id, branch index) that encloses `node` inside f."""
+        out = []
+        cur = node
+        while cur is not None and cur is not f:
+            par = getattr(cur, "_parent", None)
+            if isinstance(par, ast.If):
+                out.append((id(par), 0 if cur in par.body else 1))
+            cur = par
+        return tuple(out)
+
+    def compatible(c1, c2):
+        d1 = dict(c1)
+        return all(d1.get(k, b) == b for k, b in c2)
+
+    def resolve(mod, f, expr, depth=0):
+        """-> list of (kind, lib/base, symbol/attr, branch context)"""
+        if depth > 4:
+            return []
+        libs = lib_names(mod, f)
+        if isinstance(expr, ast.Attribute):
+            base = expr.value
+            if isinstance(base, ast.Name) and base.id in libs:
+                return [("sym", base.id, expr.attr, ())]
+            if norm(base).endswith("._curve.rawlib"):
+                return [("rawlib", norm(base), expr.attr, ())]
+            if isinstance(base, ast.Name) and f is not None and base.id in params_of(f):
+                # a table of native functions handed in by the caller (one library per table)
+                return [("rawlib", base.id, expr.attr, ())]
+            if isinstance(base, ast.Name):
+                # a class (module level or local to the function) whose attribute is a native symbol
+                for sc in ([f] if f is not None else []) + [mod.tree]:
+                    for n in ast.walk(sc):
+                        if isinstance(n, ast.ClassDef) and n.name == base.id:
+                            for b in n.body:
+                                if isinstance(b, ast.Assign) and any(isinstance(t, ast.Name) and t.id == expr.attr for t in b.targets):
+                                    return resolve(mod, f, b.value, depth + 1)
+            return []
+        if isinstance(expr, ast.Name):
+            out = []
+            if f is not None:
+                for n in walk_no_nested(f):
+                    if isinstance(n, ast.Assign) and any(isinstance(t, ast.Name) and t.id == expr.id for t in n.targets):
+                        for r in resolve(mod, f, n.value, depth + 1):
+                            out.append(r[:3] + (ctx_of(n, f) + r[3],))
+            if out:
+                return out
+            for n in ast.walk(mod.tree):
+                if isinstance(n, ast.Assign) and any(isinstance(t, ast.Name) and t.id == expr.id for t in n.targets) and \
+                        not any(isinstance(a, (ast.FunctionDef, ast.ClassDef)) for a in _ancestors(n)):
+                    for r in resolve(mod, None, n.value, depth + 1):
+                        out.append(r[:3] + ((),))
+            return out
+        return []
+
+    def _ancestors(n):
+        cur = getattr(n, "_parent", None)
+        while cur is not None:
+            yield cur
+            cur = getattr(cur, "_parent", None)
+    nsites = 0
+    npairs = 0
+    for mname, mod in sorted(repo.modules.items()):
+        if ".SelfTest" in mname or mname.endswith("_raw_api"):
+            continue
+        for q, f in sorted(mod.funcs.items()):
+            for c in walk_no_nested(f):
+                if not (isinstance(c, ast.Call) and norm(c.func).split(".")[-1] == "SmartPointer" and len(c.args) == 2):
+                    continue
+                h = c.args[0]
+                if not (isinstance(h, ast.Call) and isinstance(h.func, ast.Attribute) and h.func.attr == "get"):
+                    continue
+                nsites += 1
+                htxt = norm(h.func.value)
+                # the native call that filled the handle: the last one before this site with <h>.address_of() among its arguments
+                ctors = [k for k in walk_no_nested(f) if isinstance(k, ast.Call) and k.lineno <= c.lineno and k is not c and
+                         any(isinstance(a, ast.Call) and isinstance(a.func, ast.Attribute) and a.func.attr == "address_of" and norm(a.func.value) == htxt for a in k.args)]
+                key = "F|pairing|%s.%s|%s" % (mname.split(".")[-1], q, htxt)
+                if not ctors:
+                    check.ob("F", key, False, mod.path, c.lineno, extracted="no native call receives %s.address_of() before the handle is wrapped" % htxt,
+                             expected="the handle wrapped by SmartPointer was produced by a native constructor in the same function")
+                    continue
+                ctor = ctors[-1]
+                C = resolve(mod, f, ctor.func)
+                D = resolve(mod, f, c.args[1])
+                if not C or not D:
+                    check.ob("F", key, False, mod.path, c.lineno,
+                             extracted="%s of the handle %s cannot be resolved to a native symbol (`%s`)" % ("constructor" if not C else "destructor", htxt, norm(ctor.func if not C else c.args[1])),
+                             expected="constructor and destructor of a native handle are resolvable native symbols of one library")
+                    continue
+                bad = []
+                for cc in C:
+                    for dd in D:
+                        if not compatible(cc[3], dd[3]):
+                            continue
+                        npairs += 1
+                        if cc[0] != dd[0] or cc[1] != dd[1]:
+                            bad.append("created by %s.%s, released by %s.%s" % (cc[1], cc[2], dd[1], dd[2]))
+                        elif cc[0] == "sym":
+                            tc, td = tu_of(cc[2]), tu_of(dd[2])
+                            if tc is None or td is None:
+                                pre = lambda x: x.split("_")[0]
+                                if pre(cc[2]) != pre(dd[2]):
+                                    bad.append("created by %s.%s, released by %s.%s" % (cc[1], cc[2], dd[1], dd[2]))
+                            elif not set(tc) & set(td):
+                                bad.append("created by %s (%s), released by %s (%s)" % (cc[2], ",".join(tc), dd[2], ",".join(td)))
+                        elif not any(w in dd[2] for w in ("free", "destroy", "stop")):
+                            bad.append("created by %s.%s, released by %s.%s" % (cc[1], cc[2], dd[1], dd[2]))
+                if bad or nsites <= 3:
+                    check.ob("F", key, not bad, mod.path, c.lineno,
+                             extracted=("the handle %s may be " % htxt + "; or ".join(sorted(set(bad))[:2])) if bad else
+                             "%s: constructor %s, destructor %s" % (htxt, sorted(set(x[2] for x in C)), sorted(set(x[2] for x in D))),
+                             expected="a native handle is released by the destructor of the library and translation unit that created it, on every path")
+    check.count("smartpointer_sites", nsites)
+    check.count("constructor_destructor_pairs", npairs)
+    if nsites < 45:
+        raise AnalysisError("only %d SmartPointer sites found" % nsites)
+
+
+BYTES_PRODUCERS = ("long_to_bytes", "bytes", "tobytes", "bchr", "to_bytes", "join", "pack", "b", "get_random_bytes", "digest")
+
+
+def ffi_argument_lifetime(check, repo):
+    """The buffer behind c_uint8_ptr(E) must be alive while the native call runs.  With the ctypes back-end
+    c_uint8_ptr() of a bytearray / memoryview returns a bare address (`from_address`) and keeps no reference to the
+    object, so E must be a binding that outlives the call (a name or attribute), or an expression that always yields
+    immutable `bytes` (passed as the object itself, which the argument tuple keeps alive).  A slice, concatenation or
+    other temporary of a caller-typed buffer may be a bytearray that is freed before the native code reads it."""
+    n = 0
+    for mname, mod in sorted(repo.modules.items()):
+        if ".SelfTest" in mname or mname.endswith("_raw_api"):
+            continue
+        for q, f in sorted(mod.funcs.items()):
+            for c in walk_no_nested(f):
+                if not (isinstance(c, ast.Call) and norm(c.func).split(".")[-1] == "c_uint8_ptr" and len(c.args) == 1):
+                    continue
+                n += 1
+                e = c.args[0]
+                ok = isinstance(e, (ast.Name, ast.Attribute)) or (isinstance(e, ast.Constant) and isinstance(e.value, bytes))
+                why = "a binding that outlives the call"
+                if not ok and isinstance(e, ast.Call) and norm(e.func).split(".")[-1] in BYTES_PRODUCERS:
+                    ok, why = True, "the result of %s() is immutable bytes (kept alive as the argument itself)" % norm(e.func)
+                if not ok or n <= 2:
+                    check.ob("F", "F|ffi-arg-lifetime|%s.%s|%s" % (mname.split(".")[-1], q, norm(e)[:40]), ok, mod.path, c.lineno,
+                             extracted="c_uint8_ptr(%s): %s" % (norm(e)[:60], why if ok else "a temporary object whose type follows the caller's buffer: a bytearray is freed before the native call (the ctypes back-end keeps an address only)"),
+                             expected="native code never reads a buffer that may have been released")
+    check.count("c_uint8_ptr_sites", n)
+    if n < 100:
+        raise AnalysisError("only %d c_uint8_ptr sites found" % n)
 
 
 def foreign_handles(check, repo):
